@@ -3,8 +3,8 @@
 # reordered, re-partitioned into files (several documents per file / one per file), and with the semantically unordered
 # lists inside NetworkPolicies permuted (rules, peers, ports, policyTypes).  All outputs of one
 # world and format must be byte-identical.  list: txt json csv md dot (+ exposure on/off), diff: txt csv md dot.
-import copy, re
-from . import c04, c10
+import copy, re, ipaddress
+from . import c03, c04, c10
 from .lib import core, gen, listcorr
 
 LIST_FORMATS = ['txt', 'json', 'csv', 'md', 'dot']
@@ -83,6 +83,12 @@ def bias_world(r, W, anp):
         W['netpols'].append({'ns': w['ns'], 'name': 'allip', 'podSelector': sel, 'policyTypes': pt, d: [{key: [{'ipBlock': {'cidr': '0.0.0.0/0'}}]}]})
         W['netpols'].append({'ns': w['ns'], 'name': 'allns', 'podSelector': sel, 'policyTypes': pt,
                              d: [{key: [{'namespaceSelector': {}}], 'ports': [{'protocol': 'TCP', 'port': r.choice(gen.PORTS)}]}]})
+        if d == 'egress' and r.random() < 0.6:
+            # ... and a third one names a port towards addresses, which cannot be resolved: every command must fail, or answer, whichever
+            # policy, rule or port entry is met first
+            W['netpols'].append({'ns': w['ns'], 'name': 'namedip', 'podSelector': sel, 'policyTypes': pt,
+                                 'egress': [{'to': [{'ipBlock': {'cidr': '10.0.0.0/8'}}], 'ports': [{'port': 80}, {'port': 'http'}]},
+                                            {'to': [{'ipBlock': {'cidr': '10.0.0.0/8'}}]}]})
     if r.random() < 0.3:
         # a Route and an Ingress that certainly yield {ingress-controller} lines: own namespace without policies
         W['workloads'].append({'kind': 'Deployment', 'ns': 'nsr', 'name': 'wr', 'labels': {'app': 'r'}, 'replicas': 1, 'owner': None, 'omit_ns': False,
@@ -216,6 +222,18 @@ def main(tier):
                     keys.append(('diff', f, False))
                     for d, d2 in zip(dirs, dirs2):
                         cmds.append({'id': 'x', 'cmd': 'diff', 'dir': d, 'dir2': d2, 'format': f, 'want_out': True})
+                # the eval command: the same queries (pods x pods and addresses, boundary ports) against every variant
+                pods = c03.pod_names(W, False)
+                ends = [('pod', wl, name) for name, wl in pods] + [('ip', a) for a in c03.boundary_ips(W, run.rng)]
+                qs = [(s_, t_, pr, pt) for s_ in ends for t_ in ends if not (s_[0] == 'ip' and t_[0] == 'ip')
+                      for pr in gen.PROTOS for pt in c03.boundary_ports(W, run.rng)[:6]]
+                if len(qs) > 80:
+                    qs = run.rng.sample(qs, 80)
+                if qs:
+                    keys.append(('eval', 'answers', False))
+                    qstr = lambda x: x[2] if x[0] == 'pod' else str(ipaddress.ip_address(x[1]))
+                    for d in dirs:
+                        cmds.append({'id': 'x', 'cmd': 'eval', 'dir': d, 'mode': 'objects', 'queries': [[qstr(a), qstr(b_), pr, str(pt)] for a, b_, pr, pt in qs]})
                 metas.append((cid, W, W2, keys))
             outs = h.run(cmds, timeout=3000)
             pos = 0
@@ -228,6 +246,8 @@ def main(tier):
                     group = outs[pos: pos + len(hows)]
                     pos += len(hows)
                     def sig(o):
+                        if key[0] == 'eval':
+                            return (o['outcome'], tuple(a if a in ('true', 'false') else ('panic' if a.startswith('panic') else 'err') for a in o.get('answers') or []))
                         if o['outcome'] != 'ok':
                             # the text of an error may name whichever offending resource was met first; its kind must not change
                             e = o.get('err', '')
@@ -248,8 +268,8 @@ def main(tier):
                             fid = FID_FULLNAMED
                     run.report(fid, 'order-%d' % cid, {'kind': 'determinism', 'command': key[0], 'format': key[1], 'exposure': key[2], 'variation': how,
                                                        'world': W, 'world2': W2 if key[0] == 'diff' else None,
-                                                       'first': {'outcome': o0['outcome'], 'err': o0.get('err'), 'out': o0.get('out')},
-                                                       'other': {'outcome': oj['outcome'], 'err': oj.get('err'), 'out': oj.get('out')},
+                                                       'first': {'outcome': o0['outcome'], 'err': o0.get('err'), 'out': o0.get('out'), 'answers': o0.get('answers')},
+                                                       'other': {'outcome': oj['outcome'], 'err': oj.get('err'), 'out': oj.get('out'), 'answers': oj.get('answers')},
                                                        'how': 'the same resources, %s: `k8snetpolicy %s -o %s%s` prints different bytes' % (how, key[0], key[1], ' --exposure' if key[2] else '')},
                                'output differs between two runs on the same resources (%s)' % how)
             run.cov['traces_validated_against_impl'] += len(metas) * len(hows)
